@@ -149,6 +149,17 @@ pub fn judge(spec: &Value, out: &Outcome) -> Option<String> {
                 Some(format!("the adapter released {} bytes in {} items that are not a whole-chunk prefix of any genuine stream", released.len(), out.items.len()))
             }
         }
+        Some("first_datagram") => {
+            let want = chunks_of(&spec["candidates"][0]).into_iter().next().unwrap_or_default();
+            if let Some(e) = &out.error {
+                return Some(format!("a valid datagram stream ends in an error in this segmentation: {e}"));
+            }
+            match out.items.first() {
+                None => Some(format!("a complete {}-byte datagram was delivered but nothing was yielded", want.len())),
+                Some(got) if *got != want => Some(format!("the first datagram yielded has {} bytes and differs from the {}-byte datagram that was sent", got.len(), want.len())),
+                _ => None,
+            }
+        }
         Some("released_any") => {
             if released.is_empty() && out.items.is_empty() {
                 None
@@ -192,6 +203,8 @@ pub fn run(spec: &Value) -> Result<Option<String>, String> {
         }
         "vmess_body" => vmess_body(spec, cfg, opens)?,
         "vmess_server" => vmess_server(spec, cfg, opens)?,
+        "trojan_server_udp" => trojan_server_udp(spec)?,
+        "trojan_client_udp" => trojan_client_udp(spec)?,
         _ => return Err(format!("framed: unknown decoder {decoder}")),
     };
     verif::script_opens(None);
@@ -330,4 +343,27 @@ fn vmess_server(spec: &Value, _cfg: &Value, opens: Vec<Option<Vec<u8>>>) -> Resu
         })
     });
     Ok(drive(dec, &spec2))
+}
+
+fn trojan_server_udp(spec: &Value) -> Result<Outcome, String> {
+    use octo_squirrel_server::server::verif::new_trojan_codec;
+    use tokio_util::codec::Decoder;
+    let config = crate::trojan::server_config("trojan", "pw", "aes-128-gcm", serde_json::json!([]));
+    let mut codec = new_trojan_codec(&config).map_err(|e| e.to_string())?;
+    // bring the codec into its Udp state with a genuine header and one datagram
+    let mut h = crate::trojan::valid_header(3);
+    h.extend_from_slice(&[1, 1, 2, 3, 4, 0, 53, 0, 1, 13, 10, 0x61]);
+    let mut h = BytesMut::from(&h[..]);
+    codec.decode(&mut h).map_err(|e| e.to_string())?;
+    let dec = FnDecoder(move |src: &mut BytesMut| codec.decode(src).map(|o| o.map(|item| crate::compose::tag_item(item).0)));
+    Ok(drive(dec, spec))
+}
+
+fn trojan_client_udp(spec: &Value) -> Result<Outcome, String> {
+    use octo_squirrel::protocol::address::Address;
+    use octo_squirrel_client::client::verif::trojan_udp::ClientCodec;
+    use tokio_util::codec::Decoder;
+    let mut codec = ClientCodec::new(b"pw", 3, Address::Socket("1.2.3.4:80".parse().unwrap()));
+    let dec = FnDecoder(move |src: &mut BytesMut| codec.decode(src).map(|o| o.map(|(b, _a)| b.to_vec())));
+    Ok(drive(dec, spec))
 }
